@@ -88,7 +88,7 @@ inductive Op where
 
 def step (s : M) : Op → M × Res
   | .create n mac => create s n mac
-  | .assign n => if !s.calls.isEmpty then (s, .badop) else assign s n
+  | .assign n => assign s n
   | .term n =>
     if !s.calls.isEmpty then (s, .badop) else
     match tBegin s n with
@@ -119,5 +119,22 @@ def step (s : M) : Op → M × Res
         (tFinish s1 n { mac := 0, ip := some a, terminating := true }, .ok)
 
 def run (s : M) (ops : List Op) : M := ops.foldl (fun st op => (step st op).1) s
+
+/-- the session already holds an address (AssignAddress would hand it a second one) -/
+def hasAddr (s : M) (n : Nat) : Bool :=
+  match AMap.lookup s.sessions n with
+  | some x => x.ip.isSome
+  | none => false
+
+/-- Histories in which AssignAddress is only called on a session that holds no address yet.  Outside
+    this set lie the two recorded findings: KF-submgr-reassign-leak (the first address is never released)
+    and KF-submgr-assign-race (an AssignAddress while the session's termination is in progress clears the
+    Terminating mark and strands the new address). -/
+def Valid : M → List Op → Prop
+  | _, [] => True
+  | s, op :: ops =>
+    (match op with
+     | .assign n => hasAddr s n = false
+     | _ => True) ∧ Valid (step s op).1 ops
 
 end Bng.SubMgr
